@@ -18,6 +18,18 @@ pub fn count(tier: Tier) -> u64 {
 
 pub fn gen(seed: u64, tier: Tier, k: u64) -> Value {
     let mut rng = Rng::keyed(seed, "C16", k);
+    if (tier == Tier::Quick && k == 5) || (tier == Tier::Thorough && k % 300 == 5) {
+        // a long history through the deduplicating adder: 70000 distinct contents, then repeats of early and late ones
+        let n = 70_000usize;
+        let mut items: Vec<Item> = (0..n).map(|_| Item { len: 8, ent: Ent::High, hint: Hint::Yes, src: Src::Mem, dup_of: None }).collect();
+        for j in [0usize, 1, 100, 4095, 65_535, 65_536, n - 1] {
+            items.push(Item { len: 8, ent: Ent::High, hint: *rng.pick(&Hint::ALL), src: Src::Mem, dup_of: Some(j) });
+        }
+        let case = ContentCase { seed: rng.next(), comp: Comp::Zstd(1), cached: true, items };
+        let mut v = case.to_json();
+        v["pkg"] = json!("bare");
+        return v;
+    }
     let comp = match k % 5 {
         0 => Comp::None,
         1 => Comp::Lz4(*rng.pick(&[0u32, 3, 9, 15])),
